@@ -19,7 +19,7 @@ ID = 'C17'
 
 BOUNDS = {
     'quick': dict(DEPTH=1, DEEP=3, DEEP_LEVELS=0, KINDS=['dict', 'lru1', 'evict', 'warm-eval']),
-    'thorough': dict(DEPTH=2, DEEP=4, KINDS=['dict', 'lru1', 'lru2', 'evict', 'refuse-long', 'warm-parse', 'warm-eval']),
+    'thorough': dict(DEPTH=2, DEEP=4, DEEP_LEVELS=0, KINDS=['dict', 'lru1', 'lru2', 'evict', 'refuse-long', 'warm-parse', 'warm-eval']),
 }
 
 SOURCES = ['1', ' 1', '1 ', '\n1', '1\n', '\f1', '1\f', '[1, 2]', '{"a": [1]}', '{"a": {"b": 1}}', 'x = [1]; x', 'f = v => [v]; f(1)',
